@@ -249,6 +249,8 @@ def rule_no_sign_precondition(ctx: Ctx) -> None:
 
 def run(ctx: Ctx) -> None:
     rule_no_sign_precondition(ctx)
+    from .c17 import rule_pauli_from_bits
+    rule_pauli_from_bits(ctx)
     rule_equivalency_canonical(ctx)
     from ..rules import tableau as _tbx
     _tbx.rule_xz_rowops(ctx, ["graphiq/backends/stabilizer/functions/linalg.py", "graphiq/backends/stabilizer/functions/stabilizer.py"])  # stabilizer -> graph conversions row-reduce the generators
